@@ -29,7 +29,7 @@ class World:
         self.mir_path, self.mir_info = build.mir_dump(overflow_checks=overflow_checks)
         pk = self.mir_path + '.pickle'
         self.fns, self.consts, self.allocs = load(self.mir_path, REPO)
-        self._fields = {}
+        self._fields = {}; self._constructed = {}; self.extra_fields = {}
 
     def executor(self, contracts=None, quick_ms=300):
         ex = Exec(self.fns, self.consts, self.allocs, contracts if contracts is not None else cm.CONTRACTS)
@@ -68,8 +68,28 @@ class World:
 
     def mk(self, struct, **kw):
         names = self.fields(struct)
-        if set(names) != set(kw): raise Unsupported('struct %s has fields %s, harness provides %s' % (struct, names, sorted(kw)))
+        missing = [n for n in kw if n not in names]
+        if missing: raise Unsupported('struct %s has fields %s, harness needs %s' % (struct, names, missing))
+        extra = [n for n in names if n not in kw]
+        if extra:
+            # the struct has fields the harness does not know (a changed tree): take their values from the type's own constructor `new()`
+            base = self.constructed(struct)
+            bf = dict(zip(names, base[3]))
+            self.extra_fields.setdefault(struct, extra)
+            return adt(struct, None, *[kw.get(n, bf[n]) for n in names])
         return adt(struct, None, *[kw[n] for n in names])
+
+    def constructed(self, struct):
+        if struct in self._constructed: return self._constructed[struct]
+        fs = [f for f in self.fns if f.method == 'new' and f.impl and f.impl[0] is None and re.sub(r'<.*', '', f.impl[1]).strip() == struct and not f.params]
+        if len(fs) != 1: raise Unsupported('struct %s has fields unknown to the harness and no unique new() to initialise them' % struct)
+        from . import uppermodel as um
+        ex = self.executor(um.CONTRACTS); ex.tolerate_unsupported = False
+        gens = {g: {'Version': 'v4::V4', 'Purpose': 'local::Local'}.get(g, g) for g in fs[0].generics}
+        res = ex.run(fs[0], [], State(), subst=gens)
+        res = [(s, r) for s, r in res if not isinstance(r, Panic)]
+        if len(res) != 1: raise Unsupported('%s::new() has %d paths' % (struct, len(res)))
+        self._constructed[struct] = res[0][1]; return res[0][1]
 
     def type_text(self, proto):
         """the spelling of the Version / Purpose types in this dump (taken from the entry point's signature)"""
